@@ -3,7 +3,8 @@ CONSTANTS
   Ids <- MCIds
   NSet = {1, 2, 3, 4, 5}
   MaxN = 7
+  PreKinds = {"none", "stale"}
   SparseN = 6
   SparseMaxE = 7
-INVARIANTS NoThrow QueueShape QueuedEdgesTouchExplored LabelsAreShortest AtEnd Terminates
+INVARIANTS UntouchedKeepLabel NoThrow QueueShape QueuedEdgesTouchExplored LabelsAreShortest AtEnd Terminates
 CHECK_DEADLOCK TRUE
